@@ -451,6 +451,30 @@ func (ev *floatEval) eval(t *Term) (FV, error) {
 		return r, nil
 	case OpIte:
 		return FV{}, e4fail("conditional value inside the kernel: %s", pretty(t))
+	case OpCall:
+		// rounding to the nearest integer before the conversion (instead of the conversion's truncation): monotone,
+		// integer-valued, at most half a step from its argument; the affine reading and the accumulated error of
+		// the argument are kept, the ends of the interval are rounded (closed: a safe over-approximation)
+		if (t.Name == "math.Round" || t.Name == "math.RoundToEven") && len(t.Args) == 1 {
+			a, err := ev.eval(t.Args[0])
+			if err != nil || a.isInt {
+				return a, err
+			}
+			rd := math.Round
+			if t.Name == "math.RoundToEven" {
+				rd = math.RoundToEven
+			}
+			r := a
+			rb := func(b fbound) fbound {
+				if math.Abs(b.v) >= 1<<53 || math.IsInf(b.v, 0) {
+					return b // every float64 of this magnitude is an integer: rounding is the identity
+				}
+				return fbound{rd(b.v), false}
+			}
+			r.lo, r.hi = rb(a.lo), rb(a.hi)
+			r.desc = fmt.Sprintf("round(%s)", a.desc)
+			return r, nil
+		}
 	}
 	return FV{}, e4fail("operation %s outside the float kernel language: %s", opNames[t.Op], pretty(t))
 }
@@ -513,17 +537,28 @@ func (ev *floatEval) splitF(t *Term, neg bool) (bool, error) {
 	if t.Op == OpLNot {
 		return ev.splitF(t.Args[0], !neg)
 	}
-	if t.Op != OpCmp {
-		return false, nil
-	}
-	a, b := t.Args[0], t.Args[1]
-	tok := t.Tok
 	isF := func(x *Term) bool {
 		for x.Op == OpConv && kindOf(x.Typ).Float && kindOf(x.Args[0].Typ).Float && kindOf(x.Typ).Bits >= kindOf(x.Args[0].Typ).Bits {
 			x = x.Args[0]
 		}
 		return ev.isSample(x)
 	}
+	// math.IsNaN(f), or its spelling f != f: NaN is excluded by the property, so the test is false on the whole piece
+	nanTest := (t.Op == OpCall && t.Name == "math.IsNaN" && len(t.Args) == 1 && isF(t.Args[0])) ||
+		(t.Op == OpCmp && t.Tok == token.NEQ && isF(t.Args[0]) && isF(t.Args[1]))
+	notNanTest := t.Op == OpCmp && t.Tok == token.EQL && isF(t.Args[0]) && isF(t.Args[1])
+	if nanTest || notNanTest {
+		if nanTest != neg {
+			// the NaN side: no input of the domain takes it
+			ev.pc.meetLo(fbound{math.Inf(1), true})
+		}
+		return true, nil
+	}
+	if t.Op != OpCmp {
+		return false, nil
+	}
+	a, b := t.Args[0], t.Args[1]
+	tok := t.Tok
 	if !isF(a) {
 		if !isF(b) {
 			return false, nil
